@@ -475,15 +475,22 @@ func initDesignateNotaryRoleAsLeaderTick(ctx context.Context, prm enableNotaryPr
 			initialLen := len(tx.Scripts[1].InvocationScript)
 			var extraLen int
 
-			for _, sig := range mCommitteeIndexToSignature {
-				extraLen += 1 + 1 + len(sig) // opcode + length + value
+			for i := range prm.committee {
+				if sig, ok := mCommitteeIndexToSignature[i]; ok {
+					extraLen += 1 + 1 + len(sig) // opcode + length + value
+				}
 			}
 
 			tx.Scripts[1].InvocationScript = append(tx.Scripts[1].InvocationScript,
 				make([]byte, extraLen)...)
 			buf := tx.Scripts[1].InvocationScript[initialLen:]
 
-			for _, sig := range mCommitteeIndexToSignature {
+			// signatures must follow the order of the keys in the multi-signature script
+			for i := range prm.committee {
+				sig, ok := mCommitteeIndexToSignature[i]
+				if !ok {
+					continue
+				}
 				buf[0] = byte(opcode.PUSHDATA1)
 				buf[1] = byte(len(sig))
 				buf = buf[2:]
